@@ -72,7 +72,7 @@ DESC_PERM_ORDER = [(i * 37 + 11) % 256 for i in range(256)]     # a permutation 
 
 def plan(tier, seed):
     cases = []
-    reps = 1 if tier == 'quick' else 24
+    reps = 3 if tier == 'quick' else 24
     for rep in range(reps):
         for chunk in range(8):
             for li in range(3):
